@@ -25,6 +25,9 @@ pub struct Config {
     /// The validator schedule for this epoch. We cache it here to avoid
     /// recomputing it on every call.
     pub(crate) validators: validator::Schedule,
+    /// Observer notified after every step of the replica (runtime monitoring only).
+    #[cfg(feature = "verif")]
+    pub(crate) verif_observer: Option<Arc<dyn crate::verif::Observer>>,
 }
 
 impl Config {
@@ -52,6 +55,8 @@ impl Config {
             epoch: epoch_number,
             validators: schedule_with_lifetime.schedule,
             first_block: schedule_with_lifetime.activation_block,
+            #[cfg(feature = "verif")]
+            verif_observer: None,
         })
     }
 
